@@ -428,6 +428,42 @@ def _taptree(c, prog):
         detail = "add_leaf_with_ver(%s)" % ", ".join(a[:60] for a in args)
     comp = [e for e in err_returns(bd) if "Incomplete taproot Tree" in e[1]]
     c.inst("R6.taptree-reader", "reads (depth, version, script) and inserts in read order; incomplete tree rejected", okr and len(comp) == 1, detail, fd.where(), fd.path)
+    # stream advance: after the script was decoded from the iterator's remaining slice the iterator itself must move past
+    # exactly the bytes deserialize_partial consumed (nth(consumed - 1) when consumed > 0), whatever the length prefix size
+    from .c15 import Fn as _Fn, sh as _sh
+    from ..ieval import ieval as _ieval, NoEval as _NoEval
+    TD = _Fn(prog, "<pset::map::output::TapTree as pset::serialize::Deserialize>::deserialize")
+    DP = "encode::deserialize_partial(std::slice::Iter::as_slice(arg1))"
+    nth = [(cx, s_) for cx, s_ in TD.flat if s_[0] == "do" and s_[1].endswith("Iterator>::nth")]
+    good = len(nth) == 1
+    det = "nth calls %d" % len(nth)
+    if good:
+        cx, s_ = nth[0]
+        amount = s_[2][1]
+        guards = [(cn, arm) for k, cn, arm in cx if k == "if" and DP + ".1" in _sh(cn)]
+        det = "advance by %s under %s" % (_sh(amount), [(_sh(g), a) for g, a in guards])
+        try:
+            for consumed in range(0, 600):
+                env = {"k": consumed}
+                lv = {DP + ".1": "k"}
+                taken = all((bool(_ieval(g, env, lv)) if a == "otherwise" else _ieval(g, env, lv) == int(a[1:])) for g, a in guards)
+                if consumed == 0:
+                    if taken:
+                        good = False      # nth(0 - 1) would skip a byte that was not consumed
+                else:
+                    if not taken or _ieval(amount, env, lv) != consumed - 1:
+                        good = False
+        except _NoEval as e:
+            good = False
+            det += " (not an expression of the consumed count: %s)" % e
+    c.inst("R6.taptree-advance", "the reader advances by exactly the byte count the script decoder reports (any length-prefix size)", good, det, TD.f.where(), TD.f.path)
+    KO = "<(std::vec::Vec<taproot::TapLeafHash>, (bitcoin::bip32::Fingerprint, bitcoin::bip32::DerivationPath)) as pset::serialize::Deserialize>::deserialize"
+    if prog.has_fn(KO):
+        KF = _Fn(prog, KO)
+        oks = [_sh(s_[1]) for cx, s_ in KF.flat if s_[0] == "ret" and _sh(s_[1]).startswith("std::result::Result::Ok")]
+        P1 = "encode::deserialize_partial(arg1)"
+        REST = "<(bitcoin::bip32::Fingerprint, bitcoin::bip32::DerivationPath) as pset::serialize::Deserialize>::deserialize(core::slice::index::<impl std::ops::Index<I> for [T]>::index(arg1, std::ops::RangeFrom::RangeFrom{%s.1}))" % P1
+        c.inst("R6.key-origin-advance", "tap key origin: key source is read from exactly where the leaf-hash vector ended", oks == ["std::result::Result::Ok{tuple{%s.0, %s}}" % (P1, REST)], "Ok value %s" % [x[:300] for x in oks], KF.f.where(), KF.f.path)
 
 
 # ------------------------------------------------------------------ ELIP accessors
